@@ -257,6 +257,43 @@ theorem scan_int64_exact_or_rejected (str : List Nat) :
       · simp only [Bool.false_eq_true, if_false]; rw [if_neg (by omega)]
       · simp only [if_true]; rw [if_neg (by omega)]
 
+/-! ### printing integers -/
+
+/-- ★ `int_print_exact_to_2p53`: for EVERY finite double (64-bit pattern) whose value is a non-zero integer of magnitude
+    ≤ 2^53, `number_to_string_b` (used by `string`, `describe`, `%v`, `%q`, `%p`, `print`, `pp`) takes the `%.0f` branch, so
+    the text is the exact decimal expansion of that integer with its sign — never the lossy `%.15g` branch.
+    The window test and the formats are read from pp.c / janet.h on every run (`intMaxDouble`, `intMinDoubleAbs`,
+    `fixedPrec`, `dblDig`).  Named assumption `libc_fixed0_exact`: libc's `%.0f` of an integer-valued double is its exact
+    decimal expansion (`printFixed0`; compared with the implementation on every run). -/
+theorem int_print_exact_to_2p53 (bits : Nat)
+    (hint : isIntValued (decodeBits (bits % 0x8000000000000000)).1 (decodeBits (bits % 0x8000000000000000)).2 = true)
+    (hnz : (decodeBits (bits % 0x8000000000000000)).1 ≠ 0)
+    (hle : intValue (decodeBits (bits % 0x8000000000000000)).1 (decodeBits (bits % 0x8000000000000000)).2 ≤ 2 ^ 53) :
+    fixedPrec = 0 ∧
+    numberToString bits =
+      printFixed0 (decide (bits ≥ 0x8000000000000000))
+        (intValue (decodeBits (bits % 0x8000000000000000)).1 (decodeBits (bits % 0x8000000000000000)).2) := by
+  refine ⟨by decide, ?_⟩
+  have hmax : intMaxDouble = 2 ^ 53 := by decide
+  have hmin : intMinDoubleAbs = 2 ^ 53 := by decide
+  unfold numberToString
+  generalize decodeBits (bits % 0x8000000000000000) = me at *
+  obtain ⟨m, e⟩ := me
+  simp only at hint hnz hle ⊢
+  rw [if_neg hnz]
+  have hwin : (if bits ≥ 0x8000000000000000 then intValue m e ≤ intMinDoubleAbs else intValue m e ≤ intMaxDouble) := by
+    split
+    · rw [hmin]; exact hle
+    · rw [hmax]; exact hle
+  rw [if_pos ⟨hint, hwin⟩]
+
+/-- the window is tight: 2^53 + 2 (an integer-valued double) is printed through `%.15g` and loses digits -/
+example : String.ofList (numberToString 0x4340000000000001) = "9.00719925474099e+15" := by decide +kernel
+example : String.ofList (numberToString 0x4340000000000000) = "9007199254740992" := by decide +kernel
+example : String.ofList (numberToString 0xC340000000000000) = "-9007199254740992" := by decide +kernel
+example : String.ofList (numberToString 0x433FFFFFFFFFFFFF) = "9007199254740991" := by decide +kernel
+example : String.ofList (numberToString 0x8000000000000000) = "0" := by decide +kernel
+
 /-! ### non-vacuity -/
 
 /-- the hypotheses are satisfiable by non-trivial literals: "16r1f.8&-3", "-1.25e-7", "9223372036854775808" -/
